@@ -27,9 +27,28 @@ strategy order/subset, while these monitors observe the returned objects:
                        None/{} arguments or their own strategy list — and the configured instance on a schema nothing was
                        registered for (a distinct class of the same name) fold the texts through monitors (a)-(d): whatever
                        one instance was given (class-level / module-level / shared-default state) must not reach another.
+                       The configured instance's registration then changes (re-registration of a preprocessor that returns
+                       its input, removal) and it is judged on the schema itself;
+ (h) long histories  — one or two cases per run are > 20 000 operations / distinct texts on two long-lived instances used
+                       alternately (statistics read and reset on the way), each operation judged by what the statement says
+                       about a text whose meaning is known, every 40th and a closing round of hostile witnesses by (a)-(d);
+ (i) environment     — every case is 'dressed' from its own random stream: verbose instances (silent=False, stdout replaced by
+                       a sink that, half of the time, encodes strictly like a real UTF-8 terminal), a hostile wall clock behind
+                       the module-level `time` name (frozen / leaping by days / backwards / epoch / far future), odd values of
+                       the unused max_retries option, [] as a strategy list, a strategy named twice, the raw text as an equal
+                       copy or a str subclass, a decorated variant of the schema (descriptions+docstring / frozen / a validator
+                       that raises a RuntimeError subclass for some values). None of it may change a verdict;
+ (j) failing hooks   — on_misfold callbacks, co-chaperone preprocessors and healing generators supplied by the check raise on
+                       some calls. Where the library lets that exception out, the call has no result and is not judged; every
+                       later call on the same instance / loop is judged as usual;
+ (k) reads           — half of the sessions are replayed with get_statistics / reset_statistics / repr / attribute reads
+                       interleaved anywhere: the two runs must report the same thing step by step.
 """
+import contextlib
 import json
+import random
 import sys
+import time as _real_time
 
 from rv import core
 from rv import c11_gen as G
@@ -43,16 +62,28 @@ TECHNIQUE = ("runtime monitoring: real fold()/fold_enhanced()/heal() on generate
              "long-lived-instance sessions (repeated texts, per-call strategy lists, twin/sibling schemas, re-entrant callback folds) "
              "and healing loops over unusual retry/decay configurations go through the same monitors; neighbour sessions: plain "
              "instances created before/after an independently configured one (rewriting co-chaperone, own strategies/on_misfold) "
-             "are judged by the same monitors, with call counters inside the foreign preprocessor/callback")
+             "are judged by the same monitors, with call counters inside the foreign preprocessor/callback; "
+             "every case dressed with environment/configuration that must not matter (verbose mode into a strict UTF-8 sink, hostile "
+             "virtual clock, degenerate option values, decorated / frozen / raising-validator schema variants, equal-but-distinct text objects); "
+             "raising user hooks (on_misfold, preprocessor, generator) with the state afterwards judged; session replay with read-only / "
+             "maintenance calls interleaved (differential); > 20 000-operation histories on long-lived instances")
 RULE = ("cases = fixed witness raws x all 64 strategy orders, then seeded random (schema, instance, semantic swap, writer style, "
         "wrapper, order), a share of them continued as a healing-loop run, as a multi-fold session on one instance or as a neighbour session "
         "(several instances, one of them configured); non-trivial = the raw is strict-valid JSON for the schema, or it is not and the fold is valid; "
-        "distinct = (schema shape, corruption labels, strategy used, valid)")
+        "distinct = (schema shape, corruption labels, strategy used, valid); plus one (quick) or two (thorough) long-history cases of "
+        "26 000-70 000 operations on two long-lived instances")
 ASSUMPTIONS = [
-    "schemas are plain pydantic field models (int/float/str/bool/list/Optional/one nested model), no custom validators, aliases or extra='forbid'",
-    "raw text is a str; on_misfold (when set) does not raise",
-    "no co-chaperone preprocessor is registered on the instance/schema pair whose fold is judged (folds through a preprocessor are run, "
-    "counted and not judged); a preprocessor given to ANOTHER instance, or to the same instance for ANOTHER schema class, is part of the workload",
+    "schemas are plain pydantic field models (0-15 fields: int/float/str/bool/list/Optional/one nested model), no aliases or extra='forbid'; "
+    "decorated variants add descriptions/titles/a docstring, frozen=True, or a field validator that returns every value unchanged and "
+    "raises a RuntimeError subclass for some (the unchanged tree turns that into a failed strategy attempt)",
+    "raw text is a str (possibly a str subclass; possibly holding lone surrogates, NUL, noncharacters)",
+    "a user hook (on_misfold, co-chaperone preprocessor, healing generator) may raise; where the library lets the exception out the call "
+    "is not judged (no result exists), every later call is. A call whose on_misfold raised concerns a text nothing accepted",
+    "a co-chaperone preprocessor that returns its input unchanged leaves the raw text as the text that is folded: such folds are judged",
+    "stdout is a UTF-8 text stream (printing unencodable text to it raises, as on a real terminal); the wall clock is arbitrary",
+    "no text-changing co-chaperone preprocessor is registered on the instance/schema pair whose fold is judged (folds through such a preprocessor "
+    "are run, counted and not judged); a preprocessor given to ANOTHER instance, or to the same instance for ANOTHER schema class, or registered "
+    "earlier and since replaced / removed, is part of the workload",
     "an instance's public `strategies` list may be edited in place by its owner; the list handed to a constructor is not shared by the check between instances",
     "strategy lists are non-empty lists of FoldingStrategy members (an empty list means 'default' in the API)",
     "non-finite floats only occur in top-level fields of generated instances",
@@ -66,6 +97,12 @@ ITEM = (("name", "str", 0), ("price", "float", 0), ("tags", "list_str", 2))
 OPT = (("note", "str", 1), ("ok", "bool", 2))
 NEST = (("inner", "model", 0, (("x", "int", 0),)), ("title", "str", 0))
 COERCE3 = (("age", "int", 0), ("price", "float", 0), ("ok", "bool", 0), ("tags", "list_int", 0), ("name", "str", 0))
+
+EMPTY = ()
+MANY = tuple(("f%d" % i, "bool", 0) for i in range(10)) + (("n0", "str", 1), ("n1", "str", 1))
+NUMS = (("tags", "list_int", 0), ("ratio", "float", 0), ("name", "str", 2))
+_MANY_V = dict([("f%d" % i, i % 3 != 0) for i in range(10)] + [("n0", None), ("n1", None)])
+HI, LO = "\ud83d", "\udc80"       # a high surrogate left by a cut emoji; what errors="surrogateescape" gives for byte 0x80
 
 _P = lambda n, a: {"name": n, "age": a}  # noqa: E731
 FIXED = [
@@ -136,7 +173,181 @@ FIXED = [
     (PERSON, '{"name": "l\u2019\u00e9t\u00e9 \u201ehigh\u201c wide\u3000gap", "age": 3,}', _P("l\u2019\u00e9t\u00e9 \u201ehigh\u201c wide\u3000gap", 3)),
     (ITEM, '{"name": "\u201cw\u201d", "price": 1.5, "tags": ["\u2018a\u2019", "b\u2019s", "\u00bd\u2122"]}',
      {"name": "\u201cw\u201d", "price": 1.5, "tags": ["\u2018a\u2019", "b\u2019s", "\u00bd\u2122"]}),
+    # text that cannot be encoded / is hostile to byte-level handling: lone surrogates, NUL, noncharacters, nothing but white space
+    (PERSON, "Sure! " + HI + ' here you go: {"name": "bolt", "age": 3}', _P("bolt", 3)),
+    (PERSON, '```json\n{"name": "bolt", "age": 3}\n```\nhope that helps ' + HI, _P("bolt", 3)),
+    (PERSON, '{"name": "bo' + HI + 'lt", "age": 3}', _P("bo" + HI + "lt", 3)),
+    (PERSON, '{"name": "bo\\ud83dlt", "age": 3}', _P("bo" + HI + "lt", 3)),
+    (PERSON, LO, None),
+    (PERSON, '{"name": "bolt' + HI, None),
+    (PERSON, "{'name': 'bolt', 'age': 3} " + HI, None),
+    (PERSON, "{'name': 'bo" + LO + "lt', 'age': 3,}", _P("bo" + LO + "lt", 3)),
+    (PERSON, 'note \udc80\udcff: {"name": "bolt", "age": "3"}', _P("bolt", "3")),
+    (PERSON, '\x00{"name": "Nul", "age": 1}', _P("Nul", 1)),
+    (PERSON, '{"name": "a\\u0000b", "age": 1}\x00', _P("a\x00b", 1)),
+    (PERSON, '{"name": "\U0001f600\uffff\U0010ffff", "age": 1}', _P("\U0001f600\uffff\U0010ffff", 1)),
+    (PERSON, "   ", None),
+    (PERSON, "\n", None),
+    (PERSON, "\ufeff", None),
+    (PERSON, "\x00", None),
+    (PERSON, "\x85{\"name\": \"Nel\", \"age\": 1}\x1c", _P("Nel", 1)),
+    (PERSON, "x" * 60000 + ' {"name": "far", "age": 1}', _P("far", 1)),
+    (PERSON, '{"name": "' + "long " * 220000 + '", "age": 1}', _P("long " * 220000, 1)),      # 1.1 M characters of clean JSON
+    # values at the edges of the arithmetic
+    (PERSON, '{"name": "n", "age": -0}', _P("n", 0)),
+    (PERSON, '{"name": "n", "age": 9007199254740993}', _P("n", 2 ** 53 + 1)),
+    (PERSON, '{"name": "n", "age": -0.0}', _P("n", -0.0)),
+    (PERSON, '{"name": "n", "age": "-9223372036854775809"}', _P("n", "-9223372036854775809")),
+    (ITEM, '{"name": "w", "price": -0.0}', {"name": "w", "price": -0.0}),
+    (ITEM, '{"name": "w", "price": 0.30000000000000004}', {"name": "w", "price": 0.1 + 0.2}),
+    (ITEM, '{"name": "w", "price": 5e-324, "tags": []}', {"name": "w", "price": 5e-324, "tags": []}),
+    (ITEM, '{"name": "w", "price": "-0.0"}', {"name": "w", "price": "-0.0"}),
+    (ITEM, '{"name": "w", "price": 9007199254740993}', {"name": "w", "price": 2 ** 53 + 1}),
+    (ITEM, "{'name': 'w', 'price': 1.7976931348623157e308,}", {"name": "w", "price": 1.7976931348623157e308}),
+    (NUMS, '{"tags": [1, 2, 3, 4, 5, 6, 7, 8, 9, 10, 11,], "ratio": 0.1,}', {"tags": list(range(1, 12)), "ratio": 0.1}),
+    (NUMS, '{"tags": [[1,], [2,]], "ratio": 1,}', None),
+    # the empty object and schemas it is an instance of; a schema without fields
+    (OPT, " {}\n", {}),
+    (OPT, "{ }", {}),
+    (OPT, "```json\n{}\n```", {}),
+    (EMPTY, "{}", {}),
+    (EMPTY, '{"a": 1}', {"a": 1}),
+    (EMPTY, "[]", None),
+    (EMPTY, "null", None),
+    (EMPTY, "", None),
+    # more than a handful of repairs of one kind in one text
+    (MANY, json.dumps(_MANY_V), _MANY_V),
+    (MANY, repr(_MANY_V), _MANY_V),
+    (MANY, "{" + ", ".join("%s: %s" % (k, json.dumps(v)) for k, v in _MANY_V.items()) + "}", _MANY_V),
+    (MANY, "{" + ", ".join("'%s': %s" % (k, json.dumps(v)) for k, v in _MANY_V.items()) + "}", _MANY_V),
+    (MANY, "{" + ", ".join('"%s": %s' % (k, "undefined" if v is None else json.dumps(v)) for k, v in _MANY_V.items()) + "}", _MANY_V),
+    (MANY, json.dumps({k: (str(v).lower() if isinstance(v, bool) else v) for k, v in _MANY_V.items()}),
+     {k: (str(v).lower() if isinstance(v, bool) else v) for k, v in _MANY_V.items()}),
 ]
+
+
+
+# ----------------------------------------------------------------------------- environment stand-ins
+class _Sink:
+    """Stand-in for the terminal while library code runs (verbose instances print). `strict` makes it behave like a real
+    UTF-8 stream: text that cannot be encoded raises UnicodeEncodeError inside print()."""
+    encoding = "utf-8"
+    errors = "strict"
+
+    def __init__(self):
+        self.strict = False
+        self.chars = 0
+
+    def write(self, s):
+        if self.strict:
+            s.encode("utf-8")
+        self.chars += len(s)
+        return len(s)
+
+    def flush(self):
+        pass
+
+    def isatty(self):
+        return False
+
+
+_SINK = _Sink()
+
+
+def _lib(fn):
+    """Run a library call with stdout going to the sink."""
+    with contextlib.redirect_stdout(_SINK):
+        return fn()
+
+
+class Boom(Exception):
+    """Raised by the check's own callbacks / generators / preprocessors (a user hook that fails)."""
+
+
+def _is_boom(e):
+    seen = 0
+    while e is not None and seen < 10:
+        if isinstance(e, Boom):
+            return True
+        e = e.__cause__ or e.__context__
+        seen += 1
+    return False
+
+
+CLOCK_KINDS = ("frozen", "jump-days", "backwards", "epoch-zero", "far-future", "negative")
+
+
+class _HostileClock:
+    """Replacement for the module-level name `time` of the module under test: the wall clock stands still, leaps by days
+    between two reads, runs backwards, sits at the epoch / far in the future / before the epoch. Folding has no deadline in
+    its contract, so no verdict may depend on it."""
+
+    def __init__(self, kind):
+        self.kind = kind
+        self.reads = 0
+        self.t = {"frozen": 1.7e9, "jump-days": 1.7e9, "backwards": 1.7e9, "epoch-zero": 0.0, "far-future": 4.0e12, "negative": -86400.0 * 400}[kind]
+
+    def time(self):
+        self.reads += 1
+        if self.kind == "jump-days":
+            self.t += 86400.0 * 3.5
+        elif self.kind == "backwards":
+            self.t -= 1000.0
+        elif self.kind == "epoch-zero":
+            self.t += 1e-9 if self.reads % 2 else 0.0
+        elif self.kind in ("far-future", "negative"):
+            self.t += 0.25
+        return self.t
+
+    monotonic = perf_counter = time
+
+    def time_ns(self):
+        return int(self.time() * 1e9)
+
+    monotonic_ns = perf_counter_ns = time_ns
+
+    def sleep(self, s):
+        self.t += max(0.0, s)
+
+    def __getattr__(self, name):
+        return getattr(_real_time, name)
+
+
+@contextlib.contextmanager
+def _clock(ctx, kind):
+    """Within the block the modules under test read `kind` of hostile clock through their module-level `time` name."""
+    if kind is None:
+        yield None
+        return
+    import operon_ai.organelles.chaperone as m1
+    import operon_ai.healing.chaperone_loop as m2
+    shim = _HostileClock(kind)
+    saved = []
+    try:
+        for m in (m1, m2):
+            if m.__dict__.get("time") is _real_time:
+                saved.append(m)
+                m.time = shim
+        yield shim
+    finally:
+        for m in saved:
+            m.time = _real_time
+        ctx.count("reach:hostile_clock_reads", shim.reads)
+
+
+class _Text(str):
+    """A str subclass (what several client libraries hand out as 'text'): still a str in every respect."""
+    __slots__ = ()
+
+
+def _distinct(raw, how):
+    """The same text as another object."""
+    if how == "copy":
+        return "".join(list(raw)) if len(raw) > 1 else raw
+    if how == "subclass":
+        return _Text(raw)
+    return raw
+
 
 _ORDERS = None
 
@@ -174,7 +385,7 @@ def plan(tier):
                 "valid:strict": 3000, "valid:extraction": 1500, "valid:lenient": 500, "valid:repair": 800,
                 "invalid_results": 5000, "provenance_checked": 8000, "provenance:text": 5000,
                 "provenance:ground-truth": 300, "provenance:coerced": 200,
-                "strict_valid_raws": 5000, "strict_first_exact": 2000,
+                "strict_valid_raws": 2500, "strict_first_exact": 2000,
                 "via:extracted_via_markdown_json_block": 100, "via:extracted_via_markdown_code_block": 100,
                 "via:extracted_via_xml_json_tag": 50, "via:extracted_via_bare_json_object": 300,
                 "coercion:str_to_int": 20, "coercion:str_to_float": 20, "coercion:num_to_str": 20,
@@ -189,13 +400,70 @@ def plan(tier):
                 "neighbour_sessions": 800, "neighbour_configured_folds": 3000, "neighbour_preprocessor_changed_text": 3000,
                 "neighbour_judged_folds": 5000, "neighbour_judged_strict_first_exact": 800,
                 "neighbour_strategies_edited_in_place": 250, "neighbour_configured_judged_on_namesake": 800,
+                # round 3: environment / configuration that must not matter, failing hooks, reads, long histories
+                "raws_with_unencodable_or_nul": 1500, "strict_valid_unencodable_raws": 50,
+                "verbose_instances": 10000, "judged_with_verbose_instance": 8000, "hostile_clock_cases": 1200,
+                "schema_variant:described": 500, "schema_variant:frozen": 500, "schema_variant:touchy": 500,
+                "empty_strategy_list_means_default": 400, "raw_as:copy": 400, "raw_as:subclass": 400,
+                "session_callback_raised": 700, "neighbour_preprocessor_raised": 400, "heal_generator_raised": 150,
+                "heal_runs_after_generator_exception": 150, "heal_two_loops": 300, "heal_verbose_loops": 600, "heal_loop_reconfigured_between_runs": 60,
+                "session_replays_with_reads": 400, "session_steps_compared_with_reads": 2000,
+                "session_reads:get_statistics": 500, "session_reads:reset_statistics": 300,
+                "session_results_scribbled": 3000, "session_list_edited_after_call": 3000, "session_list_edited_from_callback": 700,
+                "neighbour_judged_through_identity_preprocessor": 400, "neighbour_identity_preprocessor_calls": 800,
+                "neighbour_judged_after_removal": 400,
+                "long_histories": 1, "long_history_ops": 20000, "long_history_distinct_texts": 20000,
+                "long_history_refolds_after_19000_newer_texts": 20, "long_history_closing_witnesses": 20,
+                "long_history_strict_valid_ops": 1500, "long_history_ops_fully_assessed": 120,
                 "stats:attempts:strict": 10000, "stats:attempts:extraction": 10000,
                 "stats:attempts:lenient": 10000, "stats:attempts:repair": 10000,
             }}
 
 
 # ----------------------------------------------------------------------------- case generation
+_UNSET = object()
+MAX_RETRIES_ARGS = (0, 1, None, -1, 10 ** 9, 2.5, True)      # "unused, kept for compatibility": no value may change a verdict
+
+
+def dress(ctx, case, n):
+    """Configuration of the case that is not part of the text: verbose instances, the terminal, the clock, constructor
+    options, a decorated variant of the schema. Drawn from its own stream, so the texts are the same with and without it."""
+    d = ctx.rng("dress", n)
+    case["silent"] = (d.random() < 0.65, d.random() < 0.65)          # (instance used for fold_enhanced, instance used for fold)
+    case["strict_sink"] = d.random() < 0.5
+    case["clock"] = d.choice(CLOCK_KINDS) if d.random() < 0.08 else None
+    case["max_retries"] = d.choice(MAX_RETRIES_ARGS) if d.random() < 0.15 else _UNSET
+    case["variant"] = d.choice(G.VARIANTS) if d.random() < 0.12 else None
+    case["empty_list"] = d.choice(["ctor", "call"]) if not case["order"] and d.random() < 0.1 else None
+    if case["order"] and d.random() < 0.05:
+        o = list(case["order"])
+        o.insert(d.randrange(len(o) + 1), d.choice(o))                # a strategy named twice: the list is still the same set
+        case["order"] = o
+    case["raw_as"] = d.choice(["copy", "subclass"]) if d.random() < 0.06 else None
+    return case
+
+
+def long_cases(tier):
+    """Cases (right after the sweep) that are long histories on one instance instead of a single text."""
+    return {N_SWEEP: 26000} if tier == "quick" else {N_SWEEP: 70000, N_SWEEP + 1: 45000}
+
+
 def run_case(ctx, n):
+    _SINK.strict = False
+    if n in long_cases(ctx.tier):
+        with _clock(ctx, "jump-days" if n % 2 else None):
+            long_history(ctx, n, long_cases(ctx.tier)[n])
+        ctx.count("reach:verbose_chars_printed", _SINK.chars)
+        _SINK.chars = 0
+        return
+    try:
+        _run_case(ctx, n)
+    finally:
+        ctx.count("reach:verbose_chars_printed", _SINK.chars)
+        _SINK.chars = 0
+
+
+def _run_case(ctx, n):
     if n < N_SWEEP:
         shape, raw, ground = FIXED[n // 64]
         order = orders()[n % 64]
@@ -210,7 +478,7 @@ def run_case(ctx, n):
                 "order": order, "labels": ("fixed%d" % (n // 64),), "via_ctor": n % 2 == 0, "heal": (n % 64) in (0, 15, 40),
                 "session": (n % 64) in (3, 27, 52) and len(raw) < 2000, "related": related,
                 "neighbour": ctx.rng("neighbour", n) if (n % 64) in (5, 33) and len(raw) < 2000 else None}
-        return judge(ctx, case, ctx.rng(n))
+        return judge(ctx, dress(ctx, case, n), ctx.rng(n))
     rng = ctx.rng(n)
     hs = lambda r: G.hostile_string(r, O.n_groups_changing)  # noqa: E731
     shape = G.make_shape(ctx.rng("schema", rng.randrange(600 if ctx.tier == "quick" else 2000)))   # model classes are cached per shape
@@ -246,7 +514,7 @@ def run_case(ctx, n):
             "session": rng.random() < 0.06 and len(raw) < 3000, "related": [text, decoy_text]}
     nrng = ctx.rng("neighbour", n)      # its own stream: the other monitors see the same cases with or without (g)
     case["neighbour"] = nrng if nrng.random() < 0.05 and len(raw) < 3000 else None
-    return judge(ctx, case, rng)
+    return judge(ctx, dress(ctx, case, n), rng)
 
 
 # ----------------------------------------------------------------------------- the monitors
@@ -254,18 +522,30 @@ def _desc(case, **kw):
     d = {"raw": case["raw"], "schema": case["shape"], "labels": case["labels"],
          "order": [s.value for s in case["order"]] if case["order"] else "default",
          "via_constructor": case["via_ctor"]}
+    for k in ("silent", "strict_sink", "clock", "variant", "empty_list", "raw_as"):
+        if case.get(k) not in (None, False, (True, True)):
+            d[k] = case[k]
+    if case.get("max_retries", _UNSET) is not _UNSET:
+        d["max_retries_arg"] = case["max_retries"]
     if case.get("kind") == "session":
         d["session"] = case["session"]
+    if case.get("kind") == "long":
+        d["long_history"] = case["long"]
     if case.get("kind") == "neighbour":
         d["neighbour"] = case["neighbour"]
     d.update(kw)
     return d
 
 
-def _call(ctx, case, which, fn):
+def _call(ctx, case, which, fn, hook_may_raise=False):
     try:
-        return fn(), None
+        return _lib(fn), None
     except Exception as e:  # the statement: no raw text makes folding raise
+        if hook_may_raise and _is_boom(e):
+            # the check's own callback raised during this call and the library let it out (as the unchanged tree does):
+            # not the text's doing; what is judged is every later call on the instance
+            ctx.count("hook_exception_propagated")
+            return None, e
         ctx.violation("fold-raises:%s:%s" % (which, type(e).__name__),
                       "%s raised %s: %s" % (which, type(e).__name__, str(e)[:200]), _desc(case))
         return None, e
@@ -280,16 +560,32 @@ def raw_facts(ctx, raw, S):
 
 
 def judge(ctx, case, rng):
+    with _clock(ctx, case.get("clock")):
+        _judge(ctx, case, rng)
+
+
+def _judge(ctx, case, rng):
     from operon_ai.organelles.chaperone import Chaperone, FoldingStrategy as FS
 
-    shape, raw, order = case["shape"], case["raw"], case["order"]
-    S = G.build_model(shape)
+    shape, order = case["shape"], case["order"]
+    if case.get("raw_as"):
+        case["raw"] = _distinct(case["raw"], case["raw_as"])
+        ctx.count("raw_as:" + case["raw_as"])
+    raw = case["raw"]
+    S = G.build_model(shape, twin=case["variant"]) if case.get("variant") else G.build_model(shape)
     default_order()
     for lb in case["labels"]:
         ctx.count("op:" + lb)
     ctx.count("order:" + ("default" if not order else "len%d" % len(order)))
     if G.has_typography(raw):
         ctx.count("raws_with_literal_typography")
+    if G.has_odd(raw):
+        ctx.count("raws_with_unencodable_or_nul")
+    if case.get("variant"):
+        ctx.count("schema_variant:" + case["variant"])
+    if case.get("clock"):
+        ctx.count("hostile_clock_cases")
+    _SINK.strict = bool(case.get("strict_sink"))
 
     misfolds = []
 
@@ -297,34 +593,47 @@ def judge(ctx, case, rng):
         misfolds.append(e)
         ctx.count("misfold_callbacks")
 
-    def mk():
+    def mk(which=0):
+        kw = {"on_misfold": on_misfold, "silent": case["silent"][which]}
+        if case["max_retries"] is not _UNSET:
+            kw["max_retries"] = case["max_retries"]
+        if not kw["silent"]:
+            ctx.count("verbose_instances")
         if order and case["via_ctor"]:
-            return Chaperone(strategies=list(order), on_misfold=on_misfold, silent=True), None
-        return Chaperone(on_misfold=on_misfold, silent=True), (list(order) if order else None)
+            return _lib(lambda: Chaperone(strategies=list(order), **kw)), None
+        if case["empty_list"] == "ctor":
+            return _lib(lambda: Chaperone(strategies=[], **kw)), None
+        return _lib(lambda: Chaperone(**kw)), (list(order) if order else ([] if case["empty_list"] == "call" else None))
 
     strict_valid, E = raw_facts(ctx, raw, S)
     if strict_valid:
         ctx.count("strict_valid_raws")
         if G.has_typography(raw):
             ctx.count("strict_valid_typography_raws")
+        if G.has_odd(raw):
+            ctx.count("strict_valid_unencodable_raws")
 
     # ---- run the real code (a fresh instance per API)
-    ch, per_call = mk()
+    ch, per_call = mk(0)
     eff = list(order) if order else list(ch.strategies)     # "default" = whatever order the instance documents
-    enh, err1 = _call(ctx, case, "fold_enhanced", lambda: ch.fold_enhanced(raw, S, per_call) if per_call else ch.fold_enhanced(raw, S))
-    stats_e = ch.get_statistics()
-    ch2, per_call2 = mk()
-    pl, err2 = _call(ctx, case, "fold", lambda: ch2.fold(raw, S, per_call2) if per_call2 else ch2.fold(raw, S))
-    stats_p = ch2.get_statistics()
+    if case["empty_list"]:
+        ctx.count("empty_strategy_list_means_default")
+    enh, err1 = _call(ctx, case, "fold_enhanced", lambda: ch.fold_enhanced(raw, S, per_call) if per_call is not None else ch.fold_enhanced(raw, S))
+    stats_e = _lib(ch.get_statistics)
+    ch2, per_call2 = mk(1)
+    pl, err2 = _call(ctx, case, "fold", lambda: ch2.fold(raw, S, per_call2) if per_call2 is not None else ch2.fold(raw, S))
+    stats_p = _lib(ch2.get_statistics)
     for s in FS:
         ctx.count("stats:attempts:" + s.value, stats_e["strategy_attempts"][s.value] + stats_p["strategy_attempts"][s.value])
     if enh is None or pl is None:
         return
+    if not all(case["silent"]):
+        ctx.count("judged_with_verbose_instance")
     used = assess(ctx, case, S, enh, pl, eff, misfolds, strict_valid, E)
 
     # ---- the healing loop on top of fold_enhanced (anchored: chaperone_loop.py)
     if case["heal"]:
-        heal_monitor(ctx, case, rng, S, enh, mk, FS)
+        heal_monitor(ctx, case, rng, S, eff)
 
     # ---- one long-lived instance folding this and related texts repeatedly
     if case.get("session"):
@@ -433,23 +742,87 @@ def assess(ctx, case, S, enh, pl, eff, misfolds, strict_valid, E):
     return used
 
 
+JUNK_VALUES = ("scribbled", -1, None, 3.5, ["x"])
+
+
+def _scribble(res):
+    """The caller does what it likes with what it was handed: overwrite the returned structure's fields and the result
+    object's own fields (after everything about them has been judged)."""
+    X = getattr(res, "structure", None)
+    if X is not None:
+        for i, name in enumerate(list(type(X).model_fields)):
+            try:
+                setattr(X, name, JUNK_VALUES[i % len(JUNK_VALUES)])
+            except Exception:
+                pass            # an immutable schema
+    for name, v in (("structure", None), ("valid", False), ("confidence", 7.0), ("error_trace", "scribbled"), ("strategy_used", None)):
+        if hasattr(res, name):
+            try:
+                setattr(res, name, v)
+            except Exception:
+                pass
+    for name in ("attempts", "coercions_applied"):
+        lst = getattr(res, name, None)
+        if isinstance(lst, list):
+            lst.append("scribbled")
+
+
 def session_monitor(ctx, case, rng):
-    """(e) One long-lived Chaperone: the case's raw text (mostly) and related texts are folded again and again, by both
-    APIs, under a different strategy list per call and against the schema, an equal-but-distinct twin class and a re-typed
-    sibling. Every step is judged by the same monitors as a fresh fold: nothing an earlier call left behind may make a
-    later 'valid' unsound, make plain and enhanced disagree, or let a strategy outside the caller's list accept."""
-    from operon_ai.organelles.chaperone import Chaperone, FoldingStrategy as FS
+    """(e) One long-lived Chaperone; see `_session`. Half of the sessions are replayed on a second instance with reporting /
+    maintenance calls (get_statistics, reset_statistics, repr, reads of the public attributes) interleaved anywhere: every
+    step of both runs goes through the monitors, and the two runs must report the same thing step by step."""
     ctx.count("sessions")
+    with_reads = rng.random() < 0.5
+    rr = random.Random(rng.getrandbits(64))
+    state = rng.getstate()
+    t1 = _session(ctx, case, rng, None)
+    if not with_reads:
+        return
+    ctx.count("session_replays_with_reads")
+    r2 = random.Random()
+    r2.setstate(state)
+    t2 = _session(ctx, case, r2, rr)
+    for i, (a, b) in enumerate(zip(t1, t2)):
+        ctx.count("session_steps_compared_with_reads")
+        if not O.same(a, b):
+            ctx.violation("reads-change-verdict", "step %d of a session reports %r; with reporting/maintenance calls interleaved it reports %r" % (i, a, b),
+                          _desc(case, step=i))
+            return
+    if len(t1) != len(t2):
+        ctx.violation("reads-change-verdict", "a session ends after %d steps; with reporting/maintenance calls interleaved after %d" % (len(t1), len(t2)),
+                      _desc(case))
+
+
+def _session(ctx, case, rng, rr):
+    """One long-lived Chaperone: the case's raw text (mostly) and related texts are folded again and again, by both APIs,
+    under a different strategy list per call and against the schema, an equal-but-distinct twin class, a re-typed sibling
+    and a decorated variant; the text is handed over as the same object, an equal copy or a str subclass; per-call lists are
+    reused between the two calls and edited by the caller afterwards (or from the callback); returned objects are scribbled
+    over once judged; on some steps the on_misfold callback raises, or folds re-entrantly. Every step is judged by the same
+    monitors as a fresh fold: nothing an earlier call left behind may make a later 'valid' unsound, make plain and enhanced
+    disagree, or let a strategy outside the caller's list accept. `rr` (or None): interleave read-only / maintenance calls.
+    Returns the trace of what every step reported."""
+    from operon_ai.organelles.chaperone import Chaperone, FoldingStrategy as FS
     shape = case["shape"]
     sib = G.sibling_shape(rng, shape)
-    schemas = [(shape, G.build_model(shape)), (shape, G.build_model(shape, twin=True)), (sib, G.build_model(sib))]
+    variant = rng.choice(G.VARIANTS)
+    schemas = [(shape, G.build_model(shape)), (shape, G.build_model(shape, twin=True)), (sib, G.build_model(sib)),
+               (shape, G.build_model(shape, twin=variant))]
     texts = [case["raw"]] + [t for t in case.get("related", []) if t != case["raw"]]
     misfolds = []
-    state = {"depth": 0, "reentrant": rng.random() < 0.3}
+    state = {"depth": 0, "reentrant": rng.random() < 0.3, "boom": False, "live_list": None}
+    boom_session = rng.random() < 0.3
+    trace = []
 
     def on_misfold(e):
         misfolds.append(e)
         ctx.count("misfold_callbacks")
+        if state["live_list"] is not None:
+            del state["live_list"][:]           # the caller's own list, emptied while the call that was given it is still running
+            ctx.count("session_list_edited_from_callback")
+        if state["boom"] and state["depth"] == 0:
+            ctx.count("session_callback_raised")
+            raise Boom("on_misfold failed")
         if state["reentrant"] and state["depth"] == 0:
             # a fold of another text started from inside the callback of the running one, on the same instance
             state["depth"] += 1
@@ -461,51 +834,132 @@ def session_monitor(ctx, case, rng):
                 state["depth"] -= 1
 
     ctor = rng.choice([None, None, rng.choice(orders())])
-    ch = Chaperone(strategies=list(ctor), on_misfold=on_misfold, silent=True) if ctor else Chaperone(on_misfold=on_misfold, silent=True)
+    silent = rng.random() < 0.6
+    kw = {"on_misfold": on_misfold, "silent": silent}
+    if ctor:
+        kw["strategies"] = list(ctor)
+    ch = _lib(lambda: Chaperone(**kw))
+    if not silent:
+        ctx.count("verbose_instances")
+    _SINK.strict = bool(case.get("strict_sink"))
     # what a call without a per-call list must use for the whole life of the instance: the constructor's list, or the
     # documented default order (read off a fresh instance, not off the long-lived one)
     configured = list(ctor) if ctor else default_order()
     history = []
     accepted = set()        # (text, schema index) already reported valid by this instance
+    last = [None]
+
+    def read_something():
+        kind = rr.choice(["get_statistics", "get_statistics", "repr", "reset_statistics", "attributes", "repr_result"])
+        ctx.count("session_reads:" + kind)
+        try:
+            if kind == "get_statistics":
+                st = _lib(ch.get_statistics)
+                repr(st)
+                if isinstance(st, dict):
+                    st.clear()                   # the report belongs to the caller
+            elif kind == "repr":
+                _lib(lambda: (repr(ch), str(ch)))
+            elif kind == "reset_statistics":
+                _lib(ch.reset_statistics)
+            elif kind == "attributes":
+                _lib(lambda: (list(ch.strategies), dict(ch.co_chaperones), ch.max_retries, ch.silent))
+            elif last[0] is not None:
+                _lib(lambda: (repr(last[0]), str(last[0])))
+        except Exception:
+            ctx.count("session_read_raised")        # recorded; the verdicts come from the folds
+
     for step in range(rng.randint(3, 7)):
         ti = 0 if rng.random() < 0.7 else rng.randrange(len(texts))
-        si = rng.choice([0, 0, 0, 0, 1, 1, 2])
+        si = rng.choice([0, 0, 0, 0, 1, 1, 2, 3])
         if step == 0:
             order = None if rng.random() < 0.7 else rng.choice(orders())
             ti = si = 0
         else:
             order = rng.choice([None] + [rng.choice(orders())] * 4)
-        raw = texts[ti]
+        raw = _distinct(texts[ti], rng.choice([None, None, "copy", "subclass"]))
         shp, S = schemas[si]
         eff = list(order) if order else configured
         if not order and step:
             ctx.count("session_default_order_after_override")
         plain_first = rng.random() < 0.5
-        history.append({"text": ti, "schema": ("same", "twin", "sibling")[si], "order": [s.value for s in order] if order else "default",
-                        "first": "fold" if plain_first else "fold_enhanced"})
+        boom = boom_session and rng.random() < 0.4
+        edit_from_callback = bool(order) and rng.random() < 0.15
+        edit_after = rng.choice([None, "clear", "reverse", "extend"]) if order else None
+        history.append({"text": ti, "schema": ("same", "twin", "sibling", variant)[si], "order": [s.value for s in order] if order else "default",
+                        "first": "fold" if plain_first else "fold_enhanced", "callback_raises": boom,
+                        "list_edited": "in-callback" if edit_from_callback else edit_after})
         sub = {"kind": "session", "shape": shp, "raw": raw, "ground": case["ground"], "order": order,
-               "labels": case["labels"], "via_ctor": False,
-               "session": {"constructor_order": [s.value for s in ctor] if ctor else "default", "texts": texts, "steps": list(history)}}
+               "labels": case["labels"], "via_ctor": False, "silent": (silent, silent), "strict_sink": case.get("strict_sink"),
+               "session": {"constructor_order": [s.value for s in ctor] if ctor else "default", "texts": texts, "steps": list(history),
+                           "reads_interleaved": rr is not None}}
         del misfolds[:]
         pl = enh = None
-        for api in (("fold", "fold_enhanced") if plain_first else ("fold_enhanced", "fold")):
+        raised = {}
+        shared = list(order) if order else None       # ONE list object handed to both calls of the step
+        state["boom"] = boom
+        if rr is not None and rr.random() < 0.6:
+            read_something()
+        for k, api in enumerate(("fold", "fold_enhanced") if plain_first else ("fold_enhanced", "fold")):
             fn = ch.fold if api == "fold" else ch.fold_enhanced
-            res, _ = _call(ctx, sub, api, (lambda: fn(raw, S, list(order))) if order else (lambda: fn(raw, S)))
+            lst = list(order) if edit_from_callback else shared
+            state["live_list"] = lst if edit_from_callback else None
+            res, exc = _call(ctx, sub, api, (lambda: fn(raw, S, lst)) if order else (lambda: fn(raw, S)), hook_may_raise=boom)
+            state["live_list"] = None
+            if exc is not None:
+                raised[api] = exc
             if api == "fold":
                 pl = res
             else:
                 enh = res
-        if pl is None or enh is None:
-            return
+            if k == 0 and rr is not None and rr.random() < 0.3:
+                read_something()
+        state["boom"] = False
+        if edit_after == "clear":
+            del shared[:]
+        elif edit_after == "reverse":
+            shared.reverse()
+        elif edit_after == "extend":
+            shared.extend(list(FS))
+        if edit_after:
+            ctx.count("session_list_edited_after_call")
+        if any(not _is_boom(e) for e in raised.values()):
+            trace.append(("raised", sorted(raised)))
+            return trace                                  # a fold raised by itself (reported by _call)
         ctx.count("session_steps")
+        if raised:
+            # the callback raised and the library let it out: that call has no result. The callback only runs for a text
+            # nothing accepted, so a valid result from the other API is a disagreement; an invalid one is judged alone.
+            ctx.count("session_steps_with_callback_exception")
+            from operon_ai.organelles.chaperone import EnhancedFoldedProtein
+            from operon_ai.core.types import FoldedProtein
+            entry = ["callback-raised", sorted(raised)]
+            for api, res, cls in (("fold", pl, FoldedProtein), ("fold_enhanced", enh, EnhancedFoldedProtein)):
+                if res is None:
+                    continue
+                direct_checks(ctx, sub, api, res, S, cls)
+                entry.append((api, bool(res.valid)))
+                if res.valid:
+                    ctx.violation("fold-vs-enhanced:validity", "%s reports valid although the other API reported the same text to on_misfold" % api, _desc(sub))
+            trace.append(tuple(entry))
+            continue
         if any(k[0] == ti for k in accepted):
             ctx.count("session_refolds_of_accepted_text")
             if not enh.valid:
                 ctx.count("session_refold_now_rejected")      # a narrower list / other schema rejects what was accepted before
         strict_valid, E = raw_facts(ctx, raw, S)
         assess(ctx, sub, S, enh, pl, eff, list(misfolds), strict_valid, E)
+        trace.append((bool(pl.valid), bool(enh.valid), O.dump(pl.structure), O.dump(enh.structure), enh.confidence,
+                      getattr(enh.strategy_used, "value", None), list(enh.coercions_applied or [])))
         if enh.valid:
             accepted.add((ti, si))
+        last[0] = enh
+        if rng.random() < 0.5:
+            ctx.count("session_results_scribbled")
+            _scribble(pl)
+            _scribble(enh)
+            last[0] = None
+    return trace
 
 
 def direct_checks(ctx, case, which, res, S, cls):
@@ -569,12 +1023,14 @@ def provenance(ctx, case, which, X, S, used, FS, eff):
         X, which, last or "no object candidate"), _desc(case, candidates=[k for _, k in (cands + cands_gt)[:6]]))
 
 
-PRE_KINDS = ("replace", "swapcase", "digits", "empty", "prose", "truncate")
+PRE_KINDS = ("replace", "swapcase", "digits", "empty", "prose", "truncate", "raise")
 _DIGIT_SHIFT = {48 + i: 48 + (i + 1) % 10 for i in range(10)}
-PLAIN_KINDS = ("default", "default", "callback", "explicit-none", "explicit-empty", "ordered")
+PLAIN_KINDS = ("default", "default", "callback", "explicit-none", "explicit-empty", "ordered", "verbose", "odd-retries")
 
 
 def _preprocess(kind, text, foreign_text):
+    if kind == "raise":
+        raise Boom("co-chaperone failed")
     if kind == "replace":
         return foreign_text                      # another, schema-valid JSON text altogether
     if kind == "swapcase":
@@ -609,6 +1065,8 @@ def neighbour_monitor(ctx, case, rng):
 
     def make_pre(kind):
         def pre(text):
+            if kind == "raise":
+                ctx.count("neighbour_preprocessor_raised")
             out = _preprocess(kind, text, foreign_text)
             if state["phase"] == "judged":
                 ctx.count("neighbour_foreign_preprocessor_calls")     # recorded; the verdict comes from the fold's result
@@ -634,6 +1092,11 @@ def neighbour_monitor(ctx, case, rng):
             return Chaperone(max_retries=3, strategies=None, co_chaperones=None, on_misfold=None, silent=True), default_order(), mis
         if kind == "explicit-empty":
             return Chaperone(strategies=[], co_chaperones={}, on_misfold=cb, silent=True), default_order(), mis
+        if kind == "verbose":
+            ctx.count("verbose_instances")
+            return _lib(lambda: Chaperone(on_misfold=cb)), default_order(), mis              # silent is False by default
+        if kind == "odd-retries":
+            return Chaperone(max_retries=rng.choice(MAX_RETRIES_ARGS), on_misfold=cb, silent=True), default_order(), mis
         o = rng.choice(orders())
         return Chaperone(strategies=list(o), on_misfold=cb, silent=True), list(o), mis
 
@@ -687,7 +1150,8 @@ def neighbour_monitor(ctx, case, rng):
         kw["co_chaperones"] = {S: make_pre(pre_kind)}
     elif via == "constructor+register":
         kw["co_chaperones"] = {twin: make_pre(rng.choice(PRE_KINDS))}
-    cfg = Chaperone(silent=True, **kw)
+    cfg_silent = rng.random() < 0.7
+    cfg = _lib(lambda: Chaperone(silent=cfg_silent, **kw))
     if via != "constructor":
         cfg.register_co_chaperone(S, make_pre(pre_kind))
     cconf = list(ctor) if ctor else default_order()
@@ -709,7 +1173,7 @@ def neighbour_monitor(ctx, case, rng):
     for ti in range(len(texts)):
         for api in ("fold", "fold_enhanced"):
             try:
-                r = getattr(cfg, api)(texts[ti], S)
+                r = _lib(lambda: getattr(cfg, api)(texts[ti], S))
                 ctx.count("neighbour_configured_folds")
                 ctx.count("neighbour_configured_folds_valid" if r.valid else "neighbour_configured_folds_invalid")
             except Exception:
@@ -727,52 +1191,301 @@ def neighbour_monitor(ctx, case, rng):
                 judged_fold(who, inst, conf, mis, ti, S, "same")
         if rng.random() < 0.25:
             try:        # the configured one keeps working in between
-                cfg.fold(texts[0], S) if rng.random() < 0.5 else cfg.fold_enhanced(texts[0], S)
+                _lib(lambda: cfg.fold(texts[0], S) if rng.random() < 0.5 else cfg.fold_enhanced(texts[0], S))
             except Exception:
                 ctx.count("neighbour_configured_folds_raised")
     judged_fold("configured", cfg, cconf, cmis, 0, namesake, "namesake")
     ctx.count("neighbour_configured_judged_on_namesake")
 
+    # ---- the registration changes: re-registration under the same schema, then removal. A preprocessor that hands the text
+    # back unchanged leaves the raw text as what is folded; after removal nothing is registered for the schema any more.
+    if rng.random() < 0.6:
+        def same_text(text):
+            ctx.count("neighbour_identity_preprocessor_calls")
+            return text
+        if rng.random() < 0.5:
+            cfg.register_co_chaperone(S, same_text)
+        else:
+            cfg.co_chaperones[S] = same_text
+        info["configured"]["re_registered"] = "a preprocessor returning its input"
+        judged_fold("configured:re-registered-identity", cfg, cconf, cmis, 0, S, "same")
+        ctx.count("neighbour_judged_through_identity_preprocessor")
+    if rng.random() < 0.6:
+        how = rng.choice(["pop", "del", "clear"])
+        try:
+            if how == "pop":
+                cfg.co_chaperones.pop(S)
+            elif how == "del":
+                del cfg.co_chaperones[S]
+            else:
+                cfg.co_chaperones.clear()
+        except Exception:
+            ctx.count("neighbour_removal_unavailable")
+            return
+        info["configured"]["removed"] = how
+        for ti in range(len(texts)):
+            judged_fold("configured:after-removal", cfg, cconf, cmis, ti, S, "same")
+        ctx.count("neighbour_judged_after_removal")
 
-JUNK_OUTPUTS = ["not json at all", "", "{", '{"unrelated": 1', "[1, 2", "sorry \u2014 I can\u2019t", "{'k': }"]
+
+JUNK_OUTPUTS = ["not json at all", "", "{", '{"unrelated": 1', "[1, 2", "sorry \u2014 I can\u2019t", "{'k': }",
+                "cut \ud83d", "\x00", "x" * 500 + "{"]
+PROMPTS = ["p", "p", "", "Return the record as JSON. " * 40, "emoji cut \ud83d", "\x00"]
 
 
-def heal_monitor(ctx, case, rng, S, enh, mk, FS):
+LONG_KINDS = ("clean", "fenced", "trailing-comma", "numeric-string", "junk", "item", "python-repr", "prose")
+
+
+def _long_text(k):
+    """The k-th distinct text of a long history -> (kind, shape, raw, the object it spells or None)."""
+    kind = LONG_KINDS[k % len(LONG_KINDS)]
+    obj = {"name": "u%d" % k, "age": k}
+    if kind == "clean":
+        return kind, PERSON, '{"name": "u%d", "age": %d}' % (k, k), obj
+    if kind == "fenced":
+        return kind, PERSON, '```json\n{"name": "u%d", "age": %d}\n```' % (k, k), obj
+    if kind == "trailing-comma":
+        return kind, PERSON, '{"name": "u%d", "age": %d,}' % (k, k), obj
+    if kind == "numeric-string":
+        return kind, PERSON, '{"name": "u%d", "age": "%d"}' % (k, k), {"name": "u%d" % k, "age": str(k)}
+    if kind == "junk":
+        return kind, PERSON, "no json in answer %d" % k, None
+    if kind == "item":
+        obj = {"name": "w%d" % k, "price": k + 0.5, "tags": ["t%d" % k]}
+        return kind, ITEM, json.dumps(obj), obj
+    if kind == "python-repr":
+        return kind, PERSON, "{'name': 'u%d', 'age': %d}" % (k, k), obj
+    return kind, PERSON, 'Answer %d: {"name": "u%d", "age": %d} (done)' % (k, k, k), obj
+
+
+def long_history(ctx, n, n_ops):
+    """(h) A long history: two long-lived instances configured differently (default / reversed order, the second verbose) fold
+    `n_ops` texts alternately, most of them new (so > 20 000 distinct texts pass through), some of them texts seen 1, 1 000 or
+    ~20 000 operations ago; statistics are read and reset on the way. Every operation is judged by what the statement says about
+    its text (agreement of the two APIs; a valid structure holds exactly what the text spells; junk is never valid; clean JSON is
+    accepted — by STRICT with confidence 1.0 when STRICT is first; confidence rules; shape of an invalid result); every 40th
+    operation and a closing round of hostile witnesses additionally go through the full monitors (a)-(d)."""
+    from operon_ai.organelles.chaperone import Chaperone, FoldingStrategy as FS, EnhancedFoldedProtein
+    from operon_ai.core.types import FoldedProtein
+    rng = ctx.rng("long", n)
+    ctx.count("long_histories")
+    mis = []
+
+    def cb(e):
+        mis.append(e)
+        if len(mis) > 8:
+            del mis[:4]
+    rev = [FS.REPAIR, FS.LENIENT, FS.EXTRACTION, FS.STRICT]
+    insts = [("default", _lib(lambda: Chaperone(on_misfold=cb, silent=True)), default_order()),
+             ("reversed-verbose", _lib(lambda: Chaperone(strategies=list(rev), on_misfold=cb)), list(rev))]
+    models = {PERSON: G.build_model(PERSON), ITEM: G.build_model(ITEM)}
+    fresh = 0
+    for i in range(n_ops):
+        if fresh and rng.random() < 0.15:
+            k = max(0, fresh - rng.choice([1, 2, 1000, 19000, 20000, fresh]))      # a text this instance pair saw long ago
+            ctx.count("long_history_refolds_of_old_text")
+            if fresh - k >= 19000:
+                ctx.count("long_history_refolds_after_19000_newer_texts")
+        else:
+            k = fresh
+            fresh += 1
+        kind, shape, raw, obj = _long_text(k)
+        S = models[shape]
+        who, ch, eff = insts[(i + (i // 7)) % 2]
+        order = None
+        if rng.random() < 0.1:
+            order = rng.choice(orders())
+            eff = list(order)
+        case = {"kind": "long", "shape": shape, "raw": raw, "ground": [obj] if obj is not None else [], "order": order,
+                "labels": ("long:" + kind,), "via_ctor": False, "long": {"instance": who, "operation": i, "distinct_texts_so_far": fresh}}
+        del mis[:]
+        res = {}
+        for api in (("fold", "fold_enhanced") if i % 3 else ("fold_enhanced", "fold")):
+            fn = ch.fold if api == "fold" else ch.fold_enhanced
+            res[api], _ = _call(ctx, case, api, (lambda: fn(raw, S, list(order))) if order else (lambda: fn(raw, S)))
+        pl, enh = res["fold"], res["fold_enhanced"]
+        if pl is None or enh is None:
+            return
+        ctx.count("long_history_ops")
+        if i % 40 == 0:
+            strict_valid, E = raw_facts(ctx, raw, S)
+            assess(ctx, case, S, enh, pl, eff, list(mis), strict_valid, E)
+            ctx.count("long_history_ops_fully_assessed")
+        # ---- the statement, applied to a text whose meaning is known
+        if bool(pl.valid) != bool(enh.valid):
+            ctx.violation("fold-vs-enhanced:validity", "fold valid=%r but fold_enhanced valid=%r" % (pl.valid, enh.valid), _desc(case))
+            continue
+        if enh.valid:
+            ctx.count("long_history_valid:" + kind)
+            if obj is None:
+                ctx.violation("long-history:junk-accepted", "a text without JSON folded to %r" % (enh.structure,), _desc(case))
+                continue
+            want = S.model_validate(obj).model_dump()
+            for api, r in (("fold", pl), ("fold_enhanced", enh)):
+                if not isinstance(r.structure, S) or not O.same(r.structure.model_dump(), want):
+                    ctx.violation("long-history:structure:" + api, "valid structure %r is not what the text spells (%r)" % (r.structure, want), _desc(case))
+            c, used = enh.confidence, enh.strategy_used
+            if not isinstance(c, float) or not (0.0 <= c <= 1.0) or (c == 1.0) != (used == FS.STRICT) or used not in eff:
+                ctx.violation("long-history:confidence", "confidence %r / strategy %r under the list %s" % (c, used, [x.value for x in eff]), _desc(case))
+        else:
+            ctx.count("long_history_invalid:" + kind)
+            for api, r, cls in (("fold", pl, FoldedProtein), ("fold_enhanced", enh, EnhancedFoldedProtein)):
+                if not isinstance(r, cls) or r.structure is not None or not r.error_trace or not isinstance(r.error_trace, str):
+                    ctx.violation("long-history:invalid-shape:" + api, "invalid result with structure=%r error_trace=%r" % (
+                        r.structure, r.error_trace), _desc(case))
+        if kind in ("clean", "item", "numeric-string") and FS.STRICT in eff:
+            ctx.count("long_history_strict_valid_ops")
+            if not enh.valid:
+                ctx.violation("strict-valid-rejected:fold_enhanced", "schema-valid JSON reported invalid with STRICT configured", _desc(case))
+            elif eff[0] == FS.STRICT and (enh.strategy_used != FS.STRICT or enh.confidence != 1.0):
+                ctx.violation("strict-valid-not-by-strict", "schema-valid JSON folded by %s with confidence %r although STRICT is first" % (
+                    enh.strategy_used, enh.confidence), _desc(case))
+        # ---- reporting / maintenance on the way
+        if i % 500 == 499:
+            ctx.count("long_history_statistics_reads")
+            try:
+                _lib(lambda: (ch.get_statistics(), repr(ch)))
+            except Exception:
+                ctx.count("session_read_raised")
+        if i % 5000 == 4999:
+            ctx.count("long_history_statistics_resets")
+            try:
+                _lib(ch.reset_statistics)
+            except Exception:
+                ctx.count("session_read_raised")
+        if i % 3 == 0:
+            _scribble(pl)
+            _scribble(enh)
+    ctx.count("long_history_distinct_texts", fresh)
+    # ---- the judged calls after the history: hostile witnesses through the full monitors, on both instances
+    for j, (shape, raw, ground) in enumerate(FIXED):
+        if len(raw) > 2000:
+            continue
+        S = G.build_model(shape)
+        who, ch, eff = insts[j % 2]
+        case = {"kind": "long", "shape": shape, "raw": raw, "ground": [ground] if ground is not None else [], "order": None,
+                "labels": ("fixed%d" % j, "after-long-history"), "via_ctor": False, "long": {"instance": who, "after_operations": n_ops}}
+        del mis[:]
+        enh, _ = _call(ctx, case, "fold_enhanced", lambda: ch.fold_enhanced(raw, S))
+        pl, _ = _call(ctx, case, "fold", lambda: ch.fold(raw, S))
+        if enh is None or pl is None:
+            continue
+        strict_valid, E = raw_facts(ctx, raw, S)
+        assess(ctx, case, S, enh, pl, eff, list(mis), strict_valid, E)
+        ctx.count("long_history_closing_witnesses")
+
+
+HEAL_RETRIES = [0, 1, 2, 3, 3, 3, 5, 8, 12, 15, 40]
+HEAL_DECAYS = [0.0, 0.05, 0.1, 0.1, 0.1, 0.25, 0.3, 0.5, 0.75, 1.0, 1.5, 2.5, 1e-9, 1e-300, 0.1 + 0.2, 1 / 3, 0.1 * 3, 1e9]
+
+
+def _heal_rig(ctx, case, rng, raw, S, order, chaperone=None):
+    """One ChaperoneLoop (own generator stub; own Chaperone unless one is handed in) over `raw`/`S`."""
+    from operon_ai.organelles.chaperone import Chaperone
+    from operon_ai.healing.chaperone_loop import ChaperoneLoop
+    rig = {"raw": raw, "S": S, "calls": [], "outs": [raw], "boom_at": None,
+           "max_retries": rng.choice(HEAL_RETRIES), "decay": rng.choice(HEAL_DECAYS),
+           "silent": rng.random() < 0.55, "shared_chaperone": chaperone is not None}
+
+    def gen(prompt, error_context=None):
+        i = len(rig["calls"])
+        rig["calls"].append(error_context)
+        if rig["boom_at"] is not None and i == rig["boom_at"]:
+            ctx.count("heal_generator_raised")
+            raise Boom("generator failed")
+        outs = rig["outs"]
+        return outs[i] if i < len(outs) else outs[-1]
+
+    if chaperone is None:
+        ch_silent = rng.random() < 0.6
+        kw = {"silent": ch_silent}
+        if order:           # the loop cannot pass a per-call order; configure it on the instance
+            kw["strategies"] = list(order)
+        if case.get("max_retries", _UNSET) is not _UNSET:
+            kw["max_retries"] = case["max_retries"]
+        chaperone = _lib(lambda: Chaperone(**kw))
+        if not ch_silent:
+            ctx.count("verbose_instances")
+    rig["chaperone"] = chaperone
+    rig["eff"] = list(order) if order else default_order()
+    kw = {"silent": rig["silent"]}
+    if not (rig["max_retries"] == 3 and rng.random() < 0.5):
+        kw["max_retries"] = rig["max_retries"]
+    if not (rig["decay"] == 0.1 and rng.random() < 0.5):
+        kw["confidence_decay"] = rig["decay"]
+    if not rig["silent"] and rng.random() < 0.3:
+        del kw["silent"]                       # verbose is the default
+    rig["loop"] = _lib(lambda: ChaperoneLoop(generator=gen, chaperone=chaperone, schema=S, **kw))
+    if not rig["silent"]:
+        ctx.count("heal_verbose_loops")
+    return rig
+
+
+def heal_monitor(ctx, case, rng, S, eff):
     """(f) ChaperoneLoop.heal over the case's text: the generator fails `junk` times and then emits the raw text.
-    Configurations cover the default and unusual ones (no retries, many retries, zero / steep / >1 decay); the text
-    is reached on any attempt number or never."""
-    from operon_ai.healing.chaperone_loop import ChaperoneLoop, HealingOutcome
-    ctx.count("heal_runs")
+    Configurations cover the default and unusual ones (no retries, many retries, zero / tiny / steep / >1 / huge decay, verbose
+    loops); the text is reached on any attempt number or never. A third of the runs use TWO loops configured differently
+    (own or shared Chaperone, same or twin schema, another text) alternately; some generators raise on one attempt and the
+    same loop is run again afterwards."""
     raw = case["raw"]
-    max_retries = rng.choice([0, 1, 2, 3, 3, 3, 5, 8, 12, 15])
-    decay = rng.choice([0.0, 0.05, 0.1, 0.1, 0.1, 0.25, 0.3, 0.5, 0.75, 1.0, 1.5, 2.5])
+    a = _heal_rig(ctx, case, rng, raw, S, case["order"])
+    runs = [a]
+    if rng.random() < 0.3:
+        ctx.count("heal_two_loops")
+        rel = [t for t in case.get("related", []) if len(t) < 3000] or [raw]
+        share = rng.random() < 0.4
+        S2 = rng.choice([S, G.build_model(case["shape"], twin=True)])
+        b = _heal_rig(ctx, case, rng, rng.choice(rel + [raw]), S2, case["order"] if share else rng.choice([None, rng.choice(orders())]),
+                      chaperone=a["chaperone"] if share else None)
+        runs = rng.choice([[b, a, b], [a, b, a], [b, a]])
+    for rig in runs:
+        _heal_once(ctx, case, rng, rig)
+
+
+def _heal_once(ctx, case, rng, rig):
+    from operon_ai.organelles.chaperone import Chaperone, FoldingStrategy as FS
+    from operon_ai.healing.chaperone_loop import HealingOutcome
+    ctx.count("heal_runs")
+    raw, S, loop = rig["raw"], rig["S"], rig["loop"]
+    if rig.get("used") and rng.random() < 0.3:
+        # the owner re-configures its loop between two runs (public dataclass fields)
+        loop.max_retries, loop.confidence_decay = rng.choice(HEAL_RETRIES), rng.choice(HEAL_DECAYS)
+        rig["max_retries"], rig["decay"] = loop.max_retries, loop.confidence_decay
+        ctx.count("heal_loop_reconfigured_between_runs")
+    rig["used"] = True
+    max_retries, decay = rig["max_retries"], rig["decay"]
     r0 = rng.random()
     junk = 0 if r0 < 0.2 else (max_retries if r0 < 0.45 else rng.randint(0, max_retries + 1))
     junk_text = rng.choice(JUNK_OUTPUTS)
-    outs = [junk_text] * junk + [raw]
-    calls = []
-
-    def gen(prompt, error_context=None):
-        i = len(calls)
-        calls.append(error_context)
-        return outs[i] if i < len(outs) else outs[-1]
-
-    ch, per_call = mk()
-    if per_call:        # the loop cannot pass a per-call order; configure it on the instance
-        ch = type(ch)(strategies=per_call, silent=True)
-    junk_ok = ch.fold_enhanced(junk_text, S).valid if junk else False     # a repairable junk text would end the loop early
-    kw = {}
-    if not (max_retries == 3 and rng.random() < 0.5):
-        kw["max_retries"] = max_retries
-    if not (decay == 0.1 and rng.random() < 0.5):
-        kw["confidence_decay"] = decay
-    loop = ChaperoneLoop(generator=gen, chaperone=ch, schema=S, silent=True, **kw)
+    rig["outs"] = [junk_text] * junk + [raw]
+    prompt = rng.choice(PROMPTS)
+    fresh = lambda: _lib(lambda: Chaperone(strategies=list(rig["eff"]), silent=True))  # noqa: E731
+    ref = _lib(lambda: fresh().fold_enhanced(raw, S))         # what a fresh, equally configured validator says about the text
+    junk_ok = _lib(lambda: fresh().fold_enhanced(junk_text, S)).valid if junk else False     # a repairable junk text would end the loop early
+    d = _desc(case, raw=raw, order=[x.value for x in rig["eff"]], junk=junk, junk_text=junk_text, max_retries=max_retries, decay=decay,
+              loop_silent=rig["silent"], shared_chaperone=rig["shared_chaperone"])
+    if rng.random() < 0.08:
+        # the generator itself fails on one attempt: heal() may let that out; the loop and its validator must work afterwards
+        rig["boom_at"] = rng.randint(0, min(junk, max_retries))
+        del rig["calls"][:]
+        try:
+            _lib(lambda: loop.heal(prompt))
+            ctx.count("heal_generator_exception_absorbed")
+        except Exception as e:
+            if not _is_boom(e):
+                ctx.violation("heal-raises:" + type(e).__name__, "heal() raised %s" % (e,), d)
+                return
+            ctx.count("hook_exception_propagated")
+        rig["boom_at"] = None
+        ctx.count("heal_runs_after_generator_exception")
+    del rig["calls"][:]
+    calls = rig["calls"]
     try:
-        r = loop.heal("p")
+        r = _lib(lambda: loop.heal(prompt))
     except Exception as e:
-        ctx.violation("heal-raises:" + type(e).__name__, "heal() raised %s" % (e,), _desc(case))
+        ctx.violation("heal-raises:" + type(e).__name__, "heal() raised %s" % (e,), d)
         return
-    d = _desc(case, junk=junk, junk_text=junk_text, max_retries=max_retries, decay=decay, outcome=str(r.outcome))
+    d["outcome"] = str(r.outcome)
     if junk_ok:
         ctx.count("heal_junk_accepted")
         return
@@ -790,10 +1503,10 @@ def heal_monitor(ctx, case, rng, S, enh, mk, FS):
         if f is None or not f.valid or X is None or not isinstance(X, S):
             ctx.violation("heal-valid-without-structure", "outcome %s with folded=%r structure=%r" % (r.outcome, f, X), d)
             return
-        if not (reached and enh.valid):
+        if not (reached and ref.valid):
             ctx.violation("heal-vs-fold:validity", "heal() reports %s but fold_enhanced on the same text is invalid" % (r.outcome,), d)
-        elif not O.same(O.dump(X), O.dump(enh.structure)):
-            ctx.violation("heal-vs-fold:structure", "heal() structure %r differs from fold_enhanced %r" % (X, enh.structure), d)
+        elif not O.same(O.dump(X), O.dump(ref.structure)):
+            ctx.violation("heal-vs-fold:structure", "heal() structure %r differs from fold_enhanced %r" % (X, ref.structure), d)
         # the fold's confidence (also as final_confidence) obeys both confidence clauses; a per-attempt record carries the
         # retry discount only (1.0 on the first attempt whatever the strategy), so only the range applies to it
         confs = [("final_confidence", r.final_confidence, True), ("folded.confidence", f.confidence, True)]
@@ -810,7 +1523,7 @@ def heal_monitor(ctx, case, rng, S, enh, mk, FS):
         ctx.count("heal_degraded")
         if r.structure is not None or (r.folded is not None and r.folded.valid):
             ctx.violation("heal-invalid-with-structure", "outcome %s with structure %r" % (r.outcome, r.structure), d)
-        if reached and enh.valid:
+        if reached and ref.valid:
             ctx.violation("heal-vs-fold:validity", "heal() degraded although fold_enhanced accepts the text", d)
         confs = [r.final_confidence] + [a.confidence for a in r.attempts]
         if not all(isinstance(c, (int, float)) and 0.0 <= c < 1.0 for c in confs):
